@@ -463,14 +463,23 @@ ESelect ==
   /\ pdb' = db /\ chk' = NoChk /\ path' = <<db>>
   /\ UNCHANGED <<db, exp, now, reqs, cand, snaps, faulted, sends, lapsed, plapsed, claims, seen, cfg, rerr, idc, trav>>
 
+\* a firing cycle has read the schedules that are due: which rows (id and creation instant) it took is remembered,
+\* the selection itself is judged by C10_SweepTakesTheMostOverdue in this very state
+EDue ==
+  /\ Consume /\ Ev.e = "due"
+  /\ cyc' = Put(cyc, "due:" \o Ev.o, GetOr(cyc, "due:" \o Ev.o, {})
+                   \cup {<<Ev.ids[i], db.schedules[Ev.ids[i]].createdOn>> : i \in {j \in DOMAIN Ev.ids : Has(db.schedules, Ev.ids[j])}})
+  /\ pdb' = db /\ chk' = NoChk /\ path' = <<db>>
+  /\ UNCHANGED <<db, exp, now, reqs, cand, snaps, faulted, sends, lapsed, plapsed, claims, seen, cfg, q0, rerr, idc, trav>>
+
 EOther ==
-  /\ Consume /\ Ev.e \notin {"reset", "submit", "tick", "commit", "respond", "send", "route", "crash",
+  /\ Consume /\ Ev.e \notin {"reset", "submit", "tick", "commit", "respond", "send", "route", "crash", "due",
                             "restart", "end", "observe", "quiesce", "chars", "cursor", "select"}
   \* ("due": the schedules a firing cycle took, judged by C10_SweepTakesTheMostOverdue in this very state)
   /\ pdb' = db /\ chk' = NoChk /\ path' = <<db>>
   /\ UNCHANGED <<db, exp, now, reqs, cand, snaps, faulted, sends, lapsed, plapsed, claims, seen, cfg, cyc, q0, rerr, idc, trav>>
 
-Next == ESelect \/ EChars \/ ECursor \/ EReset \/ ESubmit \/ ETick \/ ECommit \/ ERespond \/ ESend \/ ERoute \/ ECrash \/ EQuiesce \/ EObserve \/ EOther
+Next == EDue \/ ESelect \/ EChars \/ ECursor \/ EReset \/ ESubmit \/ ETick \/ ECommit \/ ERespond \/ ESend \/ ERoute \/ ECrash \/ EQuiesce \/ EObserve \/ EOther
 
 Spec == Init /\ [][Next]_vars
 
@@ -489,13 +498,26 @@ Alias == [l |-> l, now |-> now, chk |-> chk,
 (***************************************************************************)
 (* Named properties (state invariants; a "step" is the last event).        *)
 (***************************************************************************)
-IsCommit == Last.e = "commit"
+\* F20 (known finding): the firing cycle guards its UpdateSchedule by id and next run time only.  A schedule that is
+\* deleted and created again between the cycle's read and its write, with the same next run time, is advanced by the
+\* cycle that read the OLD row: the new schedule jumps to the next occurrence of the old cron expression (an occurrence of
+\* its own is skipped) and the promise of the occurrence is made from the old template and parameters.  Such a commit
+\* - by a cycle that did not read the row it writes - is not judged.
+F20Step ==
+  /\ Last.e = "commit" /\ "F20" \in Known
+  /\ \E i \in DOMAIN Last.txs : LET tx == Last.txs[i] IN
+        /\ tx.bg = "SchedulePromises"
+        /\ \E j \in DOMAIN tx.cmds : /\ tx.cmds[j].k = "UpdateSchedule" /\ tx.cmds[j].rows = 1
+                                     /\ Has(pdb.schedules, tx.cmds[j].id)
+                                     /\ <<tx.cmds[j].id, pdb.schedules[tx.cmds[j].id].createdOn>> \notin GetOr(cyc, "due:" \o tx.o, {})
+  /\ NoteFinding("F20")
+IsCommit == Last.e = "commit" /\ ~ F20Step
 IsRespond == Last.e = "respond"
-IsStep == Last.e \in {"commit", "restart", "end", "observe"}
+IsStep == Last.e \in {"commit", "restart", "end", "observe"} /\ ~ F20Step
 
 \* Step properties are evaluated on every consecutive pair of the states the last event
 \* went through (for a batch that level A explains: after each of its transactions).
-Steps(P(_, _)) == \A i \in 1..(Len(path) - 1) : P(path[i], path[i + 1])
+Steps(P(_, _)) == F20Step \/ \A i \in 1..(Len(path) - 1) : P(path[i], path[i + 1])
 
 \* --- C02
 C02_EveryChangeIsAnOp == IsStep => chk.tables = {}
@@ -647,7 +669,7 @@ C09_NoTransferInPlaceT == Steps(C09_NoTransferInPlace)
 \* --- C10
 ScheduleKinds == {"CreateSchedule", "ReadSchedule", "DeleteSchedule"}
 C10_AdvancesByOneT == Steps(C10_AdvancesByOne)
-C10_NotEarlyT == \A i \in 1..(Len(path) - 1) : C10_NotEarly(path[i], path[i + 1], now)
+C10_NotEarlyT == F20Step \/ \A i \in 1..(Len(path) - 1) : C10_NotEarly(path[i], path[i + 1], now)
 C10_FiringCreatesPromiseT == Steps(C10_FiringCreatesPromise)
 C10_NextAfterCreationT == C10_NextAfterCreation(db)
 \* a firing cycle takes the schedules that are due, the most overdue first when the batch size does not take them all
